@@ -466,7 +466,8 @@ func TestVectorBoundaries(t *testing.T) {
 			classes = append(classes, "every-trie-tuned")
 		}
 
-		// (c) the tuned set spread over 2..3 dictionaries of the bucket; the merge (TrieBucket.Write
+		// (c) the tuned set spread over 2..3 dictionaries of the bucket (an un-merged bucket of several
+		// dictionaries is the subject of TestBucketSortedMap, it is not judged again here); the merge (TrieBucket.Write
 		// with a block size above the union, IndexKVMerger.Merge) rebuilds ONE trie from the union,
 		// which has the tuned shape; a block size <= a dictionary copies its trie verbatim
 		nd := rapid.IntRange(2, 3).Draw(t, "dicts")
@@ -488,14 +489,6 @@ func TestVectorBoundaries(t *testing.T) {
 			raw = append(raw, writeDict(t, parts[d], partVals[d], 32767))
 		}
 		q = lightQueries(t, s, st, m)
-		spread := model.NewTrieBucket()
-		for _, r := range raw {
-			if err := spread.Unmarshal(r); err != nil {
-				t.Fatalf("TrieBucket.Unmarshal: %v", err)
-			}
-		}
-		checkBucket(t, fmt.Sprintf("tuned set (%v) spread over %d dictionaries", bt, nd), spread, m, q)
-		spread.Release()
 		mergeBS := rapid.SampledFrom([]int{65535, 65535, 32767, n + 1, n, max(1, n/2), 1}).Draw(t, "mergeBlock")
 		merging := model.NewTrieBucketWithBlockSize(mergeBS)
 		for _, r := range raw {
